@@ -537,6 +537,35 @@ func c06BothTx(r *core.Run) {
 		closedAtExit := map[string]bool{}
 		{
 			sp2 := &flow.Spec{W: w, Classify: classify, DeferAtExit: true}
+			// (database/sql: the *sql.Tx answered with a nil error is not nil — a clean-up that asks `fenceTx != nil`
+			// to see how far the begin got finds it set once the fence begin succeeded)
+			var fenceVar types.Object
+			ast.Inspect(fn.Decl.Body, func(n ast.Node) bool {
+				if as, ok := n.(*ast.AssignStmt); ok && len(as.Rhs) == 1 && len(as.Lhs) == 2 {
+					if c, ok := ast.Unparen(as.Rhs[0]).(*ast.CallExpr); ok && stdMethod(core.Callee(info, c), pSQL, "DB", "BeginTx") {
+						fenceVar = core.ObjOf(info, as.Lhs[0])
+					}
+				}
+				return true
+			})
+			nAssign := 0
+			ast.Inspect(fn.Decl.Body, func(n ast.Node) bool {
+				if as, ok := n.(*ast.AssignStmt); ok {
+					for _, l := range as.Lhs {
+						if fenceVar != nil && core.ObjOf(info, l) == fenceVar {
+							nAssign++
+						}
+					}
+				}
+				return true
+			})
+			if fenceVar != nil && nAssign == 1 {
+				sp2.Effect = func(pkg *packages.Package, n ast.Node, st *flow.State) {
+					if pkg == fn.Pkg && st.Has("ok:fencebegin") && n.Pos() >= fn.Decl.Pos() && n.End() <= fn.Decl.End() {
+						st.SetNil(fenceVar, false)
+					}
+				}
+			}
 			for _, ex := range sp2.Analyze(fn).Exits {
 				if ex.Class == flow.ExitOK || !ex.St.Has("ok:bizbegin") {
 					continue
